@@ -32,6 +32,11 @@ def run(ctx):
     r2(ctx, g)
     r3(ctx)
     r5(ctx, g)
+    # the STRING terminal decides where a literal ends: its regex structure (C12.R4) is a necessary condition for every
+    # valid profile to lex into the tokens written
+    from rules import c12
+
+    ctx.import_obligations("R6", c12.r4)
 
 
 def r1(ctx, g: Grammar):
